@@ -20,10 +20,11 @@ const (
 	entObject               // encoder.DecodeObject(bytes.NewReader(data))
 	entDecodeFromNil        // encoder.DecodeBytecodeFrom(bytes.NewReader(data), nil)
 	entObjectPlain          // encoder.DecodeObject(r) with r a plain io.Reader (no Len, no ReadByte)
+	entTyped                // (*encoder.T).UnmarshalBinary(data) for every exported wrapper type T
 	nEntries
 )
 
-var entryNames = [nEntries]string{"DecodeBytecodeFrom", "Bytecode.UnmarshalBinary", "DecodeObject", "DecodeBytecodeFrom(nil-modules)", "DecodeObject(plain-io.Reader)"}
+var entryNames = [nEntries]string{"DecodeBytecodeFrom", "Bytecode.UnmarshalBinary", "DecodeObject", "DecodeBytecodeFrom(nil-modules)", "DecodeObject(plain-io.Reader)", "typed-UnmarshalBinary"}
 
 func entryByName(s string) int {
 	for i, n := range entryNames {
@@ -76,6 +77,20 @@ func callEntry(entry int, data []byte) error {
 	case entObjectPlain:
 		_, err := encoder.DecodeObject(struct{ io.Reader }{bytes.NewReader(data)})
 		return err
+	case entTyped:
+		// the per-type decoders are exported entry points of their own: each is handed the input
+		// whatever its tag says (a wrong tag or a short input must be an error, not a panic)
+		var firstErr error
+		for _, u := range []interface{ UnmarshalBinary([]byte) error }{
+			new(encoder.UndefinedType), new(encoder.Bool), new(encoder.Int), new(encoder.Uint), new(encoder.Char),
+			new(encoder.Float), new(encoder.String), new(encoder.Bytes), new(encoder.Array), new(encoder.Map),
+			new(encoder.SyncMap), new(encoder.CompiledFunction), new(encoder.BuiltinFunction), new(encoder.Function),
+		} {
+			if err := u.UnmarshalBinary(data); err != nil && firstErr == nil {
+				firstErr = err
+			}
+		}
+		return firstErr
 	}
 	panic("harness: bad entry")
 }
